@@ -133,7 +133,10 @@ class URI(object):
         return not self.__eq__(other)
 
     def __hash__(self):
-        return hash(self.__getstate__())
+        protocol, obj, sockname, host, port = self.__getstate__()
+        if isinstance(obj, set):
+            obj = frozenset(obj)  # the tag set of a PYROMETA uri
+        return hash((protocol, obj, sockname, host, port))
 
     def __getstate__(self):
         return self.protocol, self.object, self.sockname, self.host, self.port
